@@ -200,41 +200,9 @@ fn gen_frame_script(g: &mut Rng, rec: &mut Recorder) -> Script {
     s
 }
 
-/// A long session that keeps violating the lifecycle and sending damaged payloads inside intact
-/// frames: 12..64 messages for random peers in random order (Route Monitoring / Peer Down for peers
-/// that are not up, repeated Peer Up and Initiation), a third of them with a damaged payload, type or
-/// flag byte. Whatever the receiver keeps per session (counters, bounded buffers of recent errors,
-/// per-peer tables) is driven well past any small capacity. No Termination before the end, so the
-/// session is as long as the script on every variant.
-fn long_stream(g: &mut Rng, rec: &mut Recorder) -> Vec<Vec<u8>> {
-    let mut v = vec![];
-    if g.chance(9, 10) { v.push(initiation()); }
-    let n = g.range(12, 64);
-    for k in 0..n {
-        let mut m = match g.below(8) {
-            0 => initiation(),
-            1 => peer_up(g.below(3) as usize),
-            2 | 3 => peer_down(g.below(3) as usize),
-            4 => statistics(g.below(3) as usize),
-            _ => route_monitoring(g.below(3) as usize, k as usize),
-        };
-        if g.chance(1, 3) && m.len() > 50 {
-            match g.below(3) {
-                0 => { m[7] = g.below(256) as u8; rec.bump("mut.peerflags"); }
-                1 => { let i = g.range(48, m.len() as u64 - 1) as usize; m[i] = m[i].wrapping_add(g.range(1, 255) as u8); rec.bump("mut.payload"); }
-                _ => { for _ in 0..g.range(1, 4) { let i = g.range(6, m.len() as u64 - 1) as usize; m[i] = g.below(256) as u8; } rec.bump("mut.bytes"); }
-            }
-        }
-        v.push(m);
-    }
-    if g.chance(1, 3) { v.push(termination()); }
-    rec.bump("sess.long-invalid");
-    v
-}
-
 fn gen_session_script(g: &mut Rng, rec: &mut Recorder) -> Script {
     let long = g.chance(1, 6);
-    let mut msgs = if long { long_stream(g, rec) } else if g.chance(3, 4) { valid_stream(g) } else { (0..g.range(1, 6)).map(|_| some_message(g)).collect() };
+    let mut msgs = if long { rec.bump("sess.long-invalid"); long_stream(g) } else if g.chance(3, 4) { valid_stream(g) } else { (0..g.range(1, 6)).map(|_| some_message(g)).collect() };
     let nmut = if long { 0 } else { match g.below(4) { 0 => 0, 1 | 2 => 1, _ => 2 } };
     for _ in 0..nmut { let i = g.below(msgs.len() as u64) as usize; if !msgs[i].is_empty() { let mut m = msgs[i].clone(); if m.len() >= 6 { mutate(g, &mut m, rec); } msgs[i] = m; } }
     let mut s: Script = vec![];
